@@ -48,6 +48,50 @@ impl Prng {
     }
 }
 
+/// Search hints derived by ./check from the source diff against the committed baseline (env VERIF_HINTS, JSON
+/// `{"nums":[..],"strs":[..]}`): numbers and literals the changed lines mention.  Empty on the unchanged tree.
+/// Generators should try sizes / counts / lengths n-1, n, n+1 for each number and inject each string (also
+/// upper/lower-cased) at the places where their grammar has free text, bytes, names or values.
+#[derive(Default, Clone, Debug)]
+pub struct Hints {
+    pub nums: Vec<u64>,
+    pub strs: Vec<String>,
+}
+
+pub fn hints() -> Hints {
+    let mut h = Hints::default();
+    if let Ok(text) = std::env::var("VERIF_HINTS") {
+        if let Ok(v) = serde_json::from_str::<Value>(&text) {
+            if let Some(a) = v.get("nums").and_then(|x| x.as_array()) {
+                h.nums = a.iter().filter_map(|x| x.as_u64()).collect();
+            }
+            if let Some(a) = v.get("strs").and_then(|x| x.as_array()) {
+                h.strs = a.iter().filter_map(|x| x.as_str().map(|s| s.to_string())).collect();
+            }
+        }
+    }
+    h
+}
+
+impl Hints {
+    pub fn is_empty(&self) -> bool {
+        self.nums.is_empty() && self.strs.is_empty()
+    }
+    /// n-1, n, n+1 for every hinted number that is a plausible size (1 ..= max)
+    pub fn sizes(&self, max: u64) -> Vec<usize> {
+        let mut out = Vec::new();
+        for n in &self.nums {
+            for d in [-1i64, 0, 1] {
+                let v = *n as i64 + d;
+                if v >= 1 && (v as u64) <= max && !out.contains(&(v as usize)) {
+                    out.push(v as usize);
+                }
+            }
+        }
+        out
+    }
+}
+
 pub struct Args {
     pub mode: String,
     pub seed: u64,
